@@ -146,3 +146,143 @@ func runFullTipWithheld(r *vk.Run, keys world.Keys, id int) {
 		r.Violation("eventually-included", fmt.Sprintf("header and data of every block up to %d are on the DA layer and were seen there, block %d has been applied, three inclusion passes ran, but the DA-included height is %d", want, want, getD()), wit)
 	}
 }
+
+// runFullApplyWindow holds a full node in the middle of applying a block - at the first instant at which the block can
+// be read from the store while the chain height is still the one below (whatever writes the store makes, in whatever
+// order; a store in which that instant never exists is fine and counted) - and lets the inclusion check run there. Both
+// parts of the block are on the DA layer and were seen, so the only thing between the check and a DA-included height
+// above the chain height is the check's own comparison with the chain height.
+func runFullApplyWindow(r *vk.Run, keys world.Keys, id int) {
+	ctx := context.Background()
+	n := 3 + id%3
+	spec := world.ChainSpec{Initial: []uint64{1, 4}[id%2]}
+	for b := 0; b < n; b++ {
+		if (b+id)%4 == 1 {
+			spec.Blocks = append(spec.Blocks, nil)
+		} else {
+			spec.Blocks = append(spec.Blocks, [][]byte{[]byte(fmt.Sprintf("c07aw-%d-%d", id, b))})
+		}
+	}
+	p, err := world.ProduceChain(ctx, spec, keys)
+	if err != nil {
+		r.Inconclusive("the aggregator producing the reference chain failed (not this property's business): " + err.Error())
+		return
+	}
+	root := world.TempDir(vk.Root(), "C07-aw-*")
+	defer os.RemoveAll(root)
+	f, err := world.NewFNPrepared(ctx, p, root, func(f *world.FN) {})
+	if err != nil {
+		r.Violation("startup", err.Error(), map[string]any{"apply_window_case": id})
+		return
+	}
+	defer func() { f.L.Stop() }()
+	wit := map[string]any{"apply_window_case": id, "blocks": n, "initial_height": spec.Initial}
+	items := func(i int) []world.Item {
+		it := []world.Item{{I: i}}
+		if len(p.Txs[i]) > 0 {
+			it = append(it, world.Item{D: true, I: i})
+		}
+		return it
+	}
+	k := len(p.Heights) - 1 // the block applied under observation
+	for i := 0; i < k; i++ {
+		if err := f.Do(world.Action{Kind: "da", DA: items(i)}); err != nil {
+			if err == world.ErrWatchdog {
+				r.Inconclusive("watchdog (apply-window case)")
+			} else {
+				r.Violation("eventually-included", fmt.Sprintf("apply-window case: DA delivery of block %d failed: %v", p.Heights[i], err), wit)
+			}
+			return
+		}
+	}
+	getD := func() uint64 { return f.N.M.GetDAIncludedHeight() }
+	target := p.Heights[k]
+	if !waitD(getD, target-1) {
+		r.Inconclusive("apply-window case: the blocks below the observed one did not become DA-included (judged by the ordinary cases)")
+		return
+	}
+	var armed atomic.Bool
+	entered, release := make(chan struct{}, 1), make(chan struct{})
+	released := false
+	free := func() {
+		if !released {
+			released = true
+			close(release)
+		}
+	}
+	defer free()
+	var finalInWindow atomic.Uint64
+	inWindow := atomic.Bool{}
+	prevFinal := f.Exec.OnFinal
+	f.Exec.OnFinal = func(h uint64) {
+		if inWindow.Load() && h >= target {
+			finalInWindow.Store(h)
+		}
+		if prevFinal != nil {
+			prevFinal(h)
+		}
+	}
+	chain(f.N.DS, func(world.WriteRec) {
+		if !armed.Load() {
+			return
+		}
+		h, _ := f.N.Store.Height(ctx)
+		if h != target-1 {
+			return
+		}
+		if _, _, err := f.N.Store.GetBlockData(ctx, target); err != nil {
+			return
+		}
+		if armed.CompareAndSwap(true, false) {
+			entered <- struct{}{}
+			<-release
+		}
+	})
+	armed.Store(true)
+	dh := f.DA.Height() + 1
+	blobs := [][]byte{p.HeaderBlob[k]}
+	if p.DataBlob[k] != nil {
+		blobs = append(blobs, p.DataBlob[k])
+	}
+	f.DA.Place(dh, blobs...)
+	f.DA.SetHeight(dh)
+	if err := f.L.RetrieveUntilIdle(f.DA, dh+1); err != nil {
+		r.Inconclusive("apply-window case: scanning the DA height of the observed block: " + err.Error())
+		return
+	}
+	select {
+	case <-entered:
+	case <-time.After(10 * time.Second):
+		armed.Store(false)
+		// the block never was readable below its own height: the store writes make no such window
+		r.Count("apply_window_never_open", 1)
+		free()
+		_ = f.L.SyncBarrier()
+		return
+	}
+	inWindow.Store(true)
+	r.Hit("inclusion-check-inside-the-application-of-a-block")
+	err = f.L.SignalBarrier("daIncluder", "daIncluder")
+	d, hNow := getD(), uint64(0)
+	hNow, _ = f.N.Store.Height(ctx)
+	fin := finalInWindow.Load()
+	inWindow.Store(false)
+	free()
+	if err != nil {
+		if err == world.ErrWatchdog {
+			r.Inconclusive("watchdog (apply-window case, inclusion pass)")
+			return
+		}
+		r.Violation("below-chain-height", fmt.Sprintf("apply-window case: the inclusion pass inside the application of block %d failed: %v", target, err), wit)
+		return
+	}
+	if d > hNow || fin != 0 {
+		r.Violation("below-chain-height", fmt.Sprintf("while block %d was being applied (readable from the store, chain height still %d) the inclusion check ran: the DA-included height became %d (chain height %d), SetFinal was called for height %d: the DA-included height exceeds the chain height and a block is finalized before it is committed", target, target-1, d, hNow, fin), wit)
+		return
+	}
+	if err := f.L.SyncBarrier(); err != nil {
+		r.Inconclusive("apply-window case: " + err.Error())
+		return
+	}
+	r.Eval(fmt.Sprintf("apply-window %d", id), true, wit)
+}
